@@ -52,7 +52,7 @@ class Gen:
             ch += ["arglen", "argget", "argget", "argset"]
         if d > 0:
             ch += ["fn", "fn", "call", "call", "call", "add", "lt", "seq", "logassign", "incdec", "and", "or", "nullish", "cond", "sub",
-                   "objlit", "objlit", "mget", "mget", "passign", "mset", "mset", "maddassign", "mincdec", "mcall", "mcall", "new", "new", "classe"]
+                   "objlit", "objlit", "mget", "mget", "passign", "mset", "mset", "maddassign", "mincdec", "mcall", "mcall", "new", "new", "classe", "ownname"]
             if fs.get("thisok"):
                 ch += ["this", "this"]
         c = r.choice(ch)
@@ -60,6 +60,22 @@ class Gen:
             return self.objlit(d - 1, fs)
         if c == "this":
             return N("this")
+        if c == "ownname":
+            # an immediately called named function expression with a non-simple parameter list whose own name is read by eval code only
+            nm = r.choice(FUNS)
+            par = r.choice(PARAMS)
+            inner = dict(declared={par}, params=[], loopvars=set(), incatch=False, top=True, outer=fs["declared"] | fs.get("outer", set()) | {nm},
+                         argsok=True, thisok=True, strict=bool(fs.get("strict")), revar={par}, inited=list(fs.get("inited") or []) + [par, nm],
+                         fnames=list(fs.get("fnames") or []))
+            ev = N("evalcode", k=[N("expr", k=[N("log", k=[N("typeof", x=nm)])]), N("expr", k=[N("log", k=[N("ref", x=nm)])])])
+            if r.random() < 0.4:
+                ev = N("expr", k=[N("call", k=[N("fn", x="", kind="arrow", p=[], d=[], pp=[], s=0, k=[ev])])])
+            body = [ev] + self.stmts(max(d - 1, 0), inner, top=True, maxn=2)
+            if r.random() < 0.5:
+                fnode = N("fn", x=nm, kind="named", p=[par], d=[self.expr(0, fs)], pp=[N("none")], s=0, k=body)
+            else:
+                fnode = N("fn", x=nm, kind="named", p=[""], d=[N("none")], pp=[N("opat", k=[N("pel", x=par, key="a", n=1, k=[])])], s=0, k=body)
+            return N("call", k=[fnode] + ([self.objlit(max(d - 1, 0), fs)] if r.random() < 0.6 else []))
         if c == "classe":
             return self.klass(d - 1, fs, None)
         if c == "new":
@@ -253,7 +269,7 @@ class Gen:
         strict = 1 if (r.random() < (0.35 if fs.get("ownnames") else 0.15) and all(x["t"] == "none" for x in defaults + pp)) else 0
         inner["strict"] = bool(strict) or bool(fs.get("strict"))
         body = self.stmts(d, inner, top=True)
-        if kind == "named" and r.random() < 0.25:
+        if kind == "named" and r.random() < (0.7 if any(x["t"] != "none" for x in defaults + pp) else 0.25):
             # the function's own name is referenced from direct eval code only (also when the parameter list is not simple)
             ev = N("evalcode", k=[N("expr", k=[N("log", k=[N("typeof", x=name)])]), N("expr", k=[N("log", k=[N("ref", x=name)])])])
             body.insert(r.randint(0, len(body)), ev if r.random() < 0.6 else
